@@ -383,6 +383,7 @@ func HarnessNonBlocking() {
 	V.block = make(chan struct{})
 	V.free = vrt.Choice("free", 3) // deliveries that return before the callback starts blocking
 	c := 1 + vrt.Choice("checkpoints", 4)
+	total := 0 // checkpoints written
 	idx := uint64(2)
 	var cps []uint64
 	for k := 0; k < c; k++ {
@@ -392,8 +393,9 @@ func HarnessNonBlocking() {
 		if k == 0 && vrt.Bool("two-checkpoints-in-one-batch") {
 			// a batch may carry several checkpoints; each still needs its report or its counted drop
 			batch = append(batch, mkEntry(idx+2, "e"), cpEntry(idx+3, 3))
-			c++
+			total++
 		}
+		total++
 		err := V.ls.StoreLogs(batch)
 		vrt.Assert("C18.store-completes-while-callback-blocked", err == nil)
 		cps = append(cps, idx+1)
@@ -406,8 +408,8 @@ func HarnessNonBlocking() {
 	close(V.block) // the slow callback finally returns
 	vrt.Quiesce()
 	dropped := V.mc.Summary().Counters["dropped_reports"]
-	vrt.Assert("C18.delivered-plus-dropped-equals-checkpoints", uint64(len(V.reports))+dropped == uint64(c))
-	vrt.Assert("C18.checkpoints-written-counter", V.mc.Summary().Counters["checkpoints_written"] == uint64(c))
+	vrt.Assert("C18.delivered-plus-dropped-equals-checkpoints", uint64(len(V.reports))+dropped == uint64(total))
+	vrt.Assert("C18.checkpoints-written-counter", V.mc.Summary().Counters["checkpoints_written"] == uint64(total))
 	// reports arrive in order; a gap between consecutive reports is named by SkippedRange
 	prevEnd := uint64(0)
 	for i := range V.reports {
